@@ -7,7 +7,7 @@ namespace SteelVerif.C18
 
 theorem node_of_ge (g : Graph) {i : Nat} (h : g.size ≤ i) : g.node i = { kind := .leaf } := by
   unfold Graph.node
-  simp [Array.getD, h]
+  simp [Array.getD]
   intro h'; omega
 
 theorem sons_of_ge (g : Graph) {i : Nat} (h : g.size ≤ i) : g.sons i = [] := by
@@ -112,14 +112,13 @@ theorem expWt_pos (g : Graph) (tracked : Nat → Bool) (v : Nat) : 1 ≤ expWt g
   unfold expWt
   split
   · exact Nat.le_refl _
-  · exact Nat.one_le_two_pow.trans (Nat.pow_le_pow_left (by omega) _) |> fun h => by
-      have : 0 < (g.maxDeg + 1) ^ (v + 1) := Nat.pos_pow (by omega)
-      omega
+  · have : 0 < (g.maxDeg + 1) ^ (v + 1) := Nat.pow_pos (by omega)
+    omega
 
 theorem expWt_le (g : Graph) (tracked : Nat → Bool) (v : Nat) : expWt g tracked v ≤ (g.maxDeg + 1) ^ g.size := by
   unfold expWt
   split
-  · exact Nat.pos_pow (by omega)
+  · exact Nat.pow_pos (by omega)
   · rename_i h
     simp only [Bool.or_eq_true, decide_eq_true_eq, not_or, Nat.not_le] at h
     exact Nat.pow_le_pow_right (by omega) (by omega)
@@ -143,7 +142,7 @@ theorem expWt_sons_lt (g : Graph) (tracked : Nat → Bool) (hd : untrackedDescB 
       have hj' := this j hj
       unfold expWt
       split
-      · exact Nat.pos_pow (by omega)
+      · exact Nat.pow_pos (by omega)
       · rename_i hh
         simp only [Bool.or_eq_true, decide_eq_true_eq, not_or] at hh
         have : j < v := by
@@ -156,7 +155,7 @@ theorem expWt_sons_lt (g : Graph) (tracked : Nat → Bool) (hd : untrackedDescB 
     have hlen := sons_length_le g v
     rw [hw, Nat.pow_succ]
     have : (g.sons v).length * (g.maxDeg + 1) ^ v ≤ g.maxDeg * (g.maxDeg + 1) ^ v := Nat.mul_le_mul_right _ hlen
-    have hpos : 0 < (g.maxDeg + 1) ^ v := Nat.pos_pow (by omega)
+    have hpos : 0 < (g.maxDeg + 1) ^ v := Nat.pow_pos (by omega)
     calc sumW (expWt g tracked) (g.sons v) ≤ g.maxDeg * (g.maxDeg + 1) ^ v := Nat.le_trans hsum this
       _ < (g.maxDeg + 1) ^ v * (g.maxDeg + 1) := by
         rw [Nat.mul_comm ((g.maxDeg + 1) ^ v), Nat.add_mul]
